@@ -429,7 +429,7 @@ def run_unit(mod, scratch, tier, seed, jobs):
             elif len(ids) == 0:
                 r.undecided = "vacuity guard: unit generated zero obligations"
             elif led is not None:
-                missing = [t for t in led["obligations"] if t not in ids]
+                missing = [t for t in led["obligations"] if t not in ids and t not in getattr(u, "optional", ())]
                 if missing:
                     r.undecided = "vacuity guard: obligations in the ledger are missing from the generated unit: %s" % missing[:5]
         results.append(r)
